@@ -32,7 +32,7 @@ func init() {
 				Rule: "exhaustive part (seed-independent): a 6-entry unit-size cache over 7 keys is filled, then EVERY sequence of 4 (5 thorough) operations from {Get, Remove, Put} x 7 keys is applied, then six fresh keys evict everything and the eviction order is compared; random part: case = (limit 1..40, unit sizes or a size function with sizes 0..limit+2, 2..40 keys, history of 80-600 Put/Get/Has/Remove/Clear with Remove-then-Get/Remove/Put bursts; a third of the size-function histories with every size and the limit multiplied by 2^26..2^56 (totals beyond 2^31, 2^32, 2^53); one history in five runs on a cache configured WITHOUT the optional eviction callback, where evictions are observed through the results only). Long-lived caches: one instance carries 150 000 (600 000 thorough) calls under sparse observation (per-call clocks and counters get the chance to drift or wrap). After EVERY call: the result, Len, Size (== sum of sizes, <= limit), Has for every key, the exact eviction-callback multiset of that call with evictions in exact LRU order (order of Clear's callbacks and the position of the replaced entry's callback unconstrained), and the accounting/LRU-index hook. " +
 					"Every history is executed as is and with the F1 counterfactual switch; a real-run violation is attributed to F1 iff it vanishes in the counterfactual run, every parent index seen was i/2 or (i-1)/2, and the cache had held >= 5 entries; a violation in a counterfactual run is a VIOLATION. " +
 					"distinct = hash(config, ops); non-trivial = the history evicted at least once and performed an access or removal after a Remove",
-				Required:     []string{"exhaustive_small_histories", "histories", "histories_ge6_entries", "evictions", "remove_then_access", "zero_size_puts", "too_large_puts", "replacing_puts", "clears", "hook_checks", "sparse_observation_runs", "runs_without_evict_callback", "long_lived_cache_runs", "runs_with_sizes_beyond_2_to_the_31", "clock_jumps"},
+				Required:     []string{"exhaustive_small_histories", "histories", "histories_ge6_entries", "evictions", "remove_then_access", "zero_size_puts", "too_large_puts", "replacing_puts", "clears", "hook_checks", "sparse_observation_runs", "runs_without_evict_callback", "long_lived_cache_runs", "runs_with_sizes_beyond_2_to_the_31", "clock_jumps", "interface_key_histories"},
 				Assumptions:  []string{"reference model: recency list; Put and successful Get count as uses, Has does not", "known finding F1 is excused only through the counterfactual switch in heapq/verif_on.go and only when >= 5 entries were held"},
 				CoverPkgs:    []string{"github.com/creachadair/mds/cache", "github.com/creachadair/mds/heapq"},
 				CoverAnchors: []string{"cache/cache.go", "cache/lru.go", "heapq/heapq.go:pop", "heapq/heapq.go:Remove", "heapq/heapq.go:Pop", "heapq/heapq.go:Add", "heapq/heapq.go:pushUp", "heapq/heapq.go:pushDown", "heapq/heapq.go:swap"},
@@ -580,6 +580,72 @@ func runC08(c *fw.Ctx) {
 			c.Add("histories", 1)
 		}
 		return
+	}
+	// interface-typed keys: now and then a call is made with a key that cannot be
+	// hashed (a slice); the run-time panic is recovered by the caller, and the
+	// cache must go on working (and not stay locked: a wedged cache shows as a
+	// hang, which the driver pins to the announced call)
+	for k := 0; k < c.Pick(20, 200); k++ {
+		if !c.Begin(1<<18 + k) {
+			continue
+		}
+		r := c.Rng()
+		limit := int64(2 + r.IntN(3)) // at most 4 entries: known finding F1 needs 5
+		ch := cache.New(limit, cache.LRU[any, CVal]())
+		ref := &lruModel{Limit: limit}
+		var log opLog
+		id := 0
+		for s := 0; s < 120; s++ {
+			key := r.IntN(9)
+			bad := r.IntN(7) == 0
+			var kk any = key
+			if bad {
+				kk = []int{key}
+			}
+			op := r.IntN(4)
+			log.add("%s(%v)", []string{"Put", "Get", "Has", "Remove"}[op], kk)
+			c.Call("cache[any].%s(%v) after %d calls", []string{"Put", "Get", "Has", "Remove"}[op], kk, s)
+			c.Step()
+			var gotOK bool
+			var gotV CVal
+			panicked, _ := fw.Panics(func() {
+				switch op {
+				case 0:
+					id++
+					gotOK = ch.Put(kk, CVal{ID: id, Sz: 1})
+				case 1:
+					gotV, gotOK = ch.Get(kk)
+				case 2:
+					gotOK = ch.Has(kk)
+				default:
+					gotOK = ch.Remove(kk)
+				}
+			})
+			if bad {
+				continue // whatever the call did (it panics today), the cache must still work and hold the same entries
+			}
+			if panicked {
+				c.Fail(map[string]any{"ops": log.list()}, "a call with an ordinary key panicked")
+				break
+			}
+			var wantOK bool
+			var wantV CVal
+			switch op {
+			case 0:
+				wantOK, _, _ = ref.put(key, CVal{ID: id, Sz: 1})
+			case 1:
+				wantV, wantOK = ref.get(key)
+			case 2:
+				wantOK = ref.has(key)
+			default:
+				_, wantOK = ref.remove(key)
+			}
+			if gotOK != wantOK || gotV != wantV || ch.Len() != len(ref.Es) {
+				c.Fail(map[string]any{"limit": limit, "ops": log.list()}, "result (%v,%v) want (%v,%v); Len=%d want %d", gotV, gotOK, wantV, wantOK, ch.Len(), len(ref.Es))
+				break
+			}
+		}
+		c.Add("interface_key_histories", 1)
 	}
 	c08exhaustive(c, 1<<20)
 	// long-lived caches: one instance carries 150 000 (thorough 600 000) calls,
